@@ -114,6 +114,9 @@ def ub_operand(b, op, depth=0):
         vc = varint_component(b, p)
         if vc is not None:
             return vc
+        rb_ = range_item_bound(b, p)
+        if rb_ is not None:
+            return rb_
         pj = list(place_proj(p))
         if len(pj) == 1 and isinstance(pj[0], dict) and str(pj[0].get('f')) == '0':
             dq_ = uniq_defs(b, p['l'])
@@ -300,6 +303,40 @@ def varint_component(b, q_):
     return None
 
 
+def range_item_bound(b, p):
+    """`(it.next() as Some).0` for `it = (a..b).into_iter()` with constant bounds: at most b - 1."""
+    pj = list(place_proj(p))
+    if len(pj) != 2 or not (isinstance(pj[0], dict) and pj[0].get('d') == 'Some'):
+        return None
+    ds = uniq_defs(b, p['l'])
+    if len(ds) != 1 or ds[0][2] != 'call' or not re.search(r'Range<.*>.*::next$', callee_name(ds[0][3]) or ''):
+        return None
+    og = Origin(b, transparent=re.compile(TRANSPARENT_CALLS.pattern[:-2] + r'|into_iter)$')).of_operand(ds[0][3]['args'][0])
+    hi = None
+    for l in og:
+        if l[0] == 'agg' and l[1].startswith('std::ops::Range') and isinstance(l[2], int):
+            for st in b.blocks[l[2]]['stmts']:
+                if st['k'] == 'assign' and st['rv']['k'] == 'agg' and (st['rv'].get('adt') or '').startswith('std::ops::Range'):
+                    names = st['rv'].get('names') or []
+                    if 'end' in names:
+                        v = ub_operand(b, st['rv']['fields'][names.index('end')], 1)
+                        hi = v if hi is None else max(hi, v) if v is not None else None
+    return hi - 1 if hi else None
+
+
+def mul_bounded(b, site):
+    t = site['term']
+    if t.get('msg') != 'Overflow' or t.get('op') != 'Mul':
+        return False
+    p = op_place(t['a']) or op_place(t['b'])
+    ty = b.local_ty(p['l']) if p and not place_proj(p) else None
+    width = {'u8': 8, 'u16': 16, 'u32': 32, 'u64': 64, 'usize': 64}.get(ty)
+    if not width:
+        return False
+    ua, uc = ub_operand(b, t['a']), ub_operand(b, t['b'])
+    return ua is not None and uc is not None and ua * uc <= (1 << width) - 1 and ua < (1 << width) - 1 and uc < (1 << width) - 1
+
+
 def add_bounded(b, site):
     t = site['term']
     if t.get('msg') != 'Overflow' or t['op'] != 'Add':
@@ -339,7 +376,7 @@ def nopanic(F, R, cg):
                 if ok:
                     R.ob('C02.nopanic', key, True, 'PROVEN by the available-bytes dataflow: %s' % why, s['loc'], status='proven')
                     continue
-            if s['kind'] == 'assert' and (c16.guarded_arith(b, s) or add_bounded(b, s)):
+            if s['kind'] == 'assert' and (c16.guarded_arith(b, s) or add_bounded(b, s) or mul_bounded(b, s)):
                 R.ob('C02.nopanic', key, True, 'PROVEN: dominating guard / constant shift / operands bounded by their source types', s['loc'], status='proven')
                 continue
             if s['kind'] == 'unwrap' and c16.const_unwrap(b, s):
@@ -467,6 +504,19 @@ def min_idiom(b, s):
     return False
 
 
+def _subterms(t):
+    out = []
+    st = [t]
+    while st:
+        x = st.pop()
+        if isinstance(x, tuple):
+            out.append(x)
+            st.extend(y for y in x if isinstance(y, (tuple, dict)))
+        elif isinstance(x, dict):
+            st.extend(x.values())
+    return out
+
+
 def varint(F, R):
     b = F.one(r'^utils::decode_variable_length_cursor$')
     se = SymEx(b, F, loop_visits=8, max_paths=4000,
@@ -485,6 +535,55 @@ def varint(F, R):
     for bi, j, s in b.assigns():
         if s['rv']['k'] == 'bin' and s['rv']['op'] in ('Shl', 'ShlWithOverflow'):
             shifts.add(j)
+    # value: byte k contributes (b & 0x7f) << 7k - the returned expression of every accepting path is evaluated for sample bytes
+    def evv(t, env):
+        k = t[0]
+        if k == 'const':
+            return t[1]
+        if k in ('cast', 'ref', 'deref'):
+            return evv(t[1], env)
+        if k == 'call' and t[1].endswith('get_u8'):
+            return env[t]
+        if k == 'bin':
+            a, c = evv(t[2], env), evv(t[3], env)
+            return {'Add': a + c, 'Shl': a << c, 'BitAnd': a & c, 'BitOr': a | c, 'Mul': a * c, 'Sub': a - c}[t[1]]
+        if k == 'field' and t[1][0] == 'tuple' and t[2] == '0':
+            return evv(t[1][1][0], env)
+        if k == 'agg' and t[2] in ('Ok', 'Some'):
+            return evv(t[3]['0'], env)
+        raise KeyError(str(t)[:80])
+    badv = None
+    nval = 0
+    for p in oks:
+        reads_ = [('call', nm, tuple(a) if isinstance(a, list) else a, bi) for nm, a, bi in p.calls if nm.endswith('get_u8')]
+        n_ = len(reads_)
+        for last in (0x00, 0x01, 0x7F):
+            for fill in (0x80, 0xFF, 0xAA):
+                bytes_ = [fill] * (n_ - 1) + [last]
+                want = sum((x & 0x7F) << (7 * i) for i, x in enumerate(bytes_))
+                terms = [t for t in _subterms(p.ret) if t[0] == 'call' and t[1].endswith('get_u8')]
+                uniq = []
+                for t in terms:
+                    if t not in uniq:
+                        uniq.append(t)
+                if len(uniq) != n_:
+                    badv = badv or 'cannot relate the returned expression to the %d bytes read' % n_
+                    continue
+                # the reads appear in the expression in some order: try the order of first appearance, innermost first
+                got = None
+                for order in (uniq, uniq[::-1]):
+                    try:
+                        got = evv(p.ret, dict(zip(order, bytes_)))
+                    except Exception as ex:
+                        got = None
+                        badv = badv or 'cannot evaluate the returned expression (%s)' % ex
+                        break
+                    if got == want:
+                        break
+                nval += 1
+                if got is not None and got != want:
+                    badv = badv or 'bytes %s decode to %d, the specification says %d' % (['0x%02X' % x for x in bytes_], got, want)
+    R.ob('C02.varint', 'decode_variable_length_cursor|value==sum((b&0x7f)<<7k)', badv is None and nval >= 9, badv or 'evaluated %d samples' % nval)
     R.ob('C02.varint', 'decode_variable_length_cursor|continuation rejected after 4th byte', any(p.end[0] == 'return' and p.ret and p.ret[0] == 'agg' and p.ret[2] == 'Err' and sum(1 for nm, a, bi in p.calls if nm.endswith('get_u8')) == 4 for p in paths),
          'a fourth byte with the continuation bit must end in an error')
 
